@@ -94,6 +94,12 @@ Lemma exec_clobber f m rho tr x r :
   exec (S f) m rho tr (SClobber x :: r) = exec f m (clobber rho (length tr) x) tr r.
 Proof. reflexivity. Qed.
 
+(* an inlined call: the block's return value lands in x *)
+Lemma exec_inline_ret f m rho tr x body r v rho' tr' :
+  exec f m rho tr body = Returned (Some v) rho' tr' ->
+  exec (S f) m rho tr (SInline x body :: r) = exec f m (upd rho' x v) tr' r.
+Proof. intros H. cbn [exec]. rewrite H. reflexivity. Qed.
+
 Lemma exec_zero f m rho tr x r :
   exec (S f) m rho tr (SZero x :: r) = exec f m (zeroed rho x) tr r.
 Proof. reflexivity. Qed.
@@ -313,7 +319,7 @@ Proof.
   - cbn [exec] in He. congruence.
   - change (S f + d)%nat with (S (f + d)). destruct l as [ | s r].
     + exact He.
-    + destruct s as [k x e | k g args | k c a b | k pre c body step | k e | k e cases default | | x | x | w]; cbn [exec] in He |- *.
+    + destruct s as [k x e | k g args | k c a b | k pre c body step | k e | k e cases default | | x body | x | x | w]; cbn [exec] in He |- *.
       * destruct (ceval rho m e); [ apply IH; assumption | exact He ].
       * destruct (evals rho m args); [ apply IH; assumption | exact He ].
       * destruct (ceval rho m c) as [v | ]; [ | exact He ].
@@ -350,6 +356,9 @@ Proof.
           try (rewrite (IH _ _ _ _ _ d E) by discriminate);
           [ apply IH; assumption | exact He | apply IH; assumption | exact He | congruence ].
       * exact He.
+      * destruct (exec f m rho tr body) as [rho1 tr1 | [v1 | ] rho1 tr1 | rho1 tr1 | why | ] eqn:E;
+          try (rewrite (IH _ _ _ _ _ d E) by discriminate);
+          [ apply IH; assumption | apply IH; assumption | apply IH; assumption | exact He | exact He | congruence ].
       * apply IH; assumption.
       * apply IH; assumption.
       * exact He.
